@@ -19,7 +19,8 @@ impl Prop for Corr {
         let mut v = Vec::new();
         for _ in 0..n {
             let css = r.p(60);
-            let k = if css { Knobs::all() } else { Knobs::all().no_css() };
+            let mut k = if css { Knobs::all() } else { Knobs::all().no_css() };
+            k.pre_inline = r.p(50);
             let mut html = String::new();
             if css && r.p(50) {
                 let sh = gen::sheet(r).replace("</", "< /");
